@@ -81,14 +81,21 @@ func (b *bworld) nn() string { b.nonce++; return fmt.Sprintf("c11-%d", b.nonce) 
 
 // sign assembles the transaction: the initiator signs as initiator, every auth entry is signed by its key.
 func (b *bworld) sign(tx *pb.Transaction, init *sn.Key, initAcct string, auth []entry) (*pb.Transaction, error) {
+	nonce := b.nn()
+	b.ts++
+	return signTx(tx, init, initAcct, auth, nonce, b.ts)
+}
+
+// signTx is sign with the nonce and the timestamp given by the caller (no shared state: the
+// concurrent parts sign on several goroutines).
+func signTx(tx *pb.Transaction, init *sn.Key, initAcct string, auth []entry, nonce string, ts int64) (*pb.Transaction, error) {
 	tx.Version = 3
 	tx.Initiator = init.Address
 	if initAcct != "" {
 		tx.Initiator = initAcct
 	}
-	tx.Nonce = b.nn()
-	b.ts++
-	tx.Timestamp = b.ts
+	tx.Nonce = nonce
+	tx.Timestamp = ts
 	tx.AuthRequire = nil
 	for _, e := range auth {
 		tx.AuthRequire = append(tx.AuthRequire, e.URI)
